@@ -314,7 +314,7 @@ func fileFromSeed(seed uint64, i int) (*ach.File, map[string]any) {
 	case 4:
 		o.NonASCII, o.Returns, o.NOC, o.IAT = true, true, true, true
 	case 5:
-		o.Offset = true
+		o.Offset, o.OffsetReturns, o.Returns = true, true, true
 	case 6:
 		o.IAT, o.OFAC = true, true
 	case 7:
